@@ -722,3 +722,27 @@ impl Prop for C13 {
         vec!["reload-then-removal / lost-race", "guard-across-reload", "wrong-type-views"]
     }
 }
+
+/// Fuzz decoder (the deterministic, single-threaded operations).
+pub fn decode(u: &mut arbitrary::Unstructured) -> arbitrary::Result<Value> {
+    let hot = u.int_in_range(0..=7)? != 0;
+    let mut ops = Vec::new();
+    let ts = [T::ZT, T::B1, T::HV, T::A64];
+    for _ in 0..u.int_in_range(2..=48)? {
+        let t = ts[u.int_in_range(0..=3)?];
+        let n = u.int_in_range(0..=NIDS - 1)?;
+        ops.push(match u.int_in_range(0..=13)? {
+            0..=2 => Op::Load(t, n),
+            3 => Op::LoadOwned(t, n),
+            4 | 5 => Op::GetOrInsert(t, n),
+            6 => Op::Remove(t, n),
+            7 => Op::Take(t, n),
+            8 => Op::Clear,
+            9 | 10 => Op::Reload(t, n),
+            11 => Op::BadReload(t, n),
+            12 => Op::DropOwned(u.arbitrary()?),
+            _ => Op::WrongTypeViews(t, n),
+        });
+    }
+    Ok(to_case(&Case { ops, hot }))
+}
